@@ -185,7 +185,20 @@ impl ToTokens for FromMetaImpl<'_> {
                             // The first surplus item is the one at fault; without a span of its own the
                             // error has none at all when the enum is read through `from_list` directly
                             // (a `flatten` field at the root of an attribute set).
-                            _ => ::darling::export::Err(::darling::Error::too_many_items(1).with_span(&__outer[1])),
+                            _ => {
+                                let mut __errors = ::darling::Error::accumulator();
+                                __errors.push(::darling::Error::too_many_items(1).with_span(&__outer[1]));
+                                // Every item is still read on its own, so that the mistakes inside
+                                // the items are reported in the same pass; the values are discarded.
+                                for __i in 0..__outer.len() {
+                                    let _: ::darling::export::Option<Self> = __errors.handle(
+                                        <Self as ::darling::FromMeta>::from_list(&__outer[__i..__i + 1])
+                                    );
+                                }
+                                ::darling::export::Err(
+                                    __errors.finish().expect_err("the item count was recorded as an error")
+                                )
+                            }
                         }
                     }
 
